@@ -76,3 +76,43 @@ pub fn with_defs(k_main: usize, k_b1: usize, k_b2: usize, f: &mut dyn FnMut(G)) 
         }
     }
 }
+
+/// Definition DAGs: names D0..D(n-1), `cmd <D0>`, every subset of the forward edges i -> j
+/// (i < j) such that every definition is reachable, bodies `l<i> <refs...>` (sequence, optional,
+/// alternative shapes by parity), in three textual orders (top-down, bottom-up, rotated).
+pub fn def_dags(n: usize, f: &mut dyn FnMut(G)) {
+    let pairs: Vec<(usize, usize)> = (0..n).flat_map(|i| ((i + 1)..n).map(move |j| (i, j))).collect();
+    for mask in 0u32..(1u32 << pairs.len()) {
+        let edges: Vec<(usize, usize)> = pairs.iter().enumerate().filter(|(k, _)| mask & (1 << k) != 0).map(|(_, e)| *e).collect();
+        // every node other than 0 needs an incoming edge (else it is an unused definition;
+        // those are C15's business)
+        if (1..n).any(|j| !edges.iter().any(|(_, t)| *t == j)) {
+            continue;
+        }
+        let mut defs: Vec<Stmt> = vec![];
+        for i in 0..n {
+            let mut items = vec![E::lit(&format!("l{i}"))];
+            for (k, (_, j)) in edges.iter().filter(|(a, _)| *a == i).enumerate() {
+                let r = E::r(&format!("D{j}"));
+                items.push(match (i + k + mask as usize) % 3 {
+                    0 => r,
+                    1 => E::Opt(Box::new(r)),
+                    _ => E::Alt(vec![E::lit(&format!("m{i}")), r]),
+                });
+            }
+            let body = if items.len() == 1 { items.pop().unwrap() } else { E::Seq(items) };
+            defs.push(def(&format!("D{i}"), body));
+        }
+        let c = Stmt::Call { name: CMD.into(), expr: E::r("D0") };
+        let mut top_down = vec![c.clone()];
+        top_down.extend(defs.iter().cloned());
+        f(G { stmts: top_down });
+        let mut bottom_up: Vec<Stmt> = defs.iter().rev().cloned().collect();
+        bottom_up.push(c.clone());
+        f(G { stmts: bottom_up });
+        let mut rotated: Vec<Stmt> = defs.clone();
+        rotated.rotate_left(n / 2);
+        rotated.insert(1, c.clone());
+        f(G { stmts: rotated });
+    }
+}
